@@ -405,9 +405,14 @@ Fixpoint elim_loop (sts al0 al match_ : list name) (es : list expr)
       end
   end.
 
+Fixpoint has_dup (l : list name) : bool :=
+  match l with [] => false | x :: l' => mem x l' || has_dup l' end.
+
 Definition eliminate_vars (match_ : list name) (m : model) : model :=
   let '(al, defs, kept, unsupported) := elim_loop (states m) (algs m) (algs m) match_ (eqs m) in
-  if unsupported then set_failed m else
+  (* the same variable extracted twice (a bare-symbol equation is looked up in the un-shrunk
+     all_states): ca.substitute raises "The input expressions are not independent" *)
+  if unsupported || has_dup (map fst defs) then set_failed m else
   match defs with
   | [] => Model (states m) (ders m) al (inputs m) (consts m) (params m) kept (ieqs m) (arel m)
                 (ghost m) (warned m) (failed m)
